@@ -12,6 +12,7 @@ import numpy as np
 from ..core import import_library
 from ..gen import engines as E
 from ..gen import mutate as M
+from ..env import ENVIRONMENTS, excusable, hostile
 from ..probe import Probe, Reach, plain_function
 from . import c08
 
@@ -63,6 +64,16 @@ class RejectionMonitor:
         if not rule.is_loaded():
             ctx.violation("a rule does not report loaded after a successful load", {"text": text}, True, False)
             return
+        # an accepted rule is about terms of its own variables: whatever the names resolve to, a proposition never pairs a
+        # variable with a term that variable does not have (that would be an unknown name accepted)
+        props = []
+        self.propositions(rule.antecedent.expression, props)
+        props += list(rule.consequent.conclusions)
+        for pr in props:
+            ctx.hit("compare:accepted proposition binds a term of its variable")
+            if pr.variable is not None and pr.term is not None and not any(t is pr.term for t in pr.variable.terms):
+                ctx.violation("an accepted rule pairs a variable with a term that variable does not have", {"text": text[:300], "variable": pr.variable.name, "term": pr.term.name}, [t.name for t in pr.variable.terms], pr.term.name)
+                return
         # an accepted rule can be exported again and evaluated
         try:
             str(rule)
@@ -107,6 +118,17 @@ class RejectionMonitor:
                 del v.fuzzy.terms[n:]
             rule.deactivate()
 
+    def propositions(self, node, out, depth=0):
+        fl = self.fl
+        stack = [node]
+        while stack and len(out) < 4000:
+            n = stack.pop()
+            if isinstance(n, fl.Proposition):
+                out.append(n)
+            elif isinstance(n, fl.Operator):
+                stack.append(n.left)
+                stack.append(n.right)
+
     def inputs_of(self, node, out):
         fl = self.fl
         if isinstance(node, fl.Proposition):
@@ -132,8 +154,24 @@ class RejectionMonitor:
         ctx, fl = self.ctx, self.fl
         text = args[1]
         self.classify("FllImporter.from_string", exc, text[:2000])
+        # a text is accepted or rejected for what it says, not for what the importer object has read before
+        used = args[0]
+        try:
+            fresh, fresh_exc = type(used)(separator=used.separator).from_string(text), None
+        except Exception as ex:
+            fresh, fresh_exc = None, ex
+        ctx.hit("compare:used importer vs new importer")
+        if (exc is None) != (fresh_exc is None):
+            ctx.violation("an importer that has been used before accepts / rejects a text that a new importer rejects / accepts", {"text": text[:1500]}, repr(fresh_exc)[:200] if fresh_exc else "accepted", repr(exc)[:200] if exc else "accepted")
+            return
         if exc is not None:
             return
+        try:
+            if fl.FllExporter().to_string(result) != fl.FllExporter().to_string(fresh):
+                ctx.violation("an importer that has been used before imports another engine from a text than a new importer", {"text": text[:1500]}, fl.FllExporter().to_string(fresh)[:600], fl.FllExporter().to_string(result)[:600])
+                return
+        except Exception:
+            pass
         try:
             fl.FllExporter().to_string(result)
             repr(result)
@@ -169,25 +207,29 @@ def run(ctx):
     )
     ctx.assumptions += ["accepted mutants that are ungrammatical but not of a listed class (eg `( )` or `a ( is ) x`) are counted, not judged", "non-numeric weights are literals Python's float() rejects (`1_0` and `nan` are numeric for float())"]
     funcs = {"Rule.parse": fl.Rule.parse, "Antecedent.load": fl.Antecedent.load, "Consequent.load": fl.Consequent.load, "RuleBlock.load_rules": fl.RuleBlock.load_rules, "FllImporter.engine": fl.FllImporter.engine, "FllImporter.extract_key_value": fl.FllImporter.extract_key_value, "Function.infix_to_postfix": plain_function(fl.Function, "infix_to_postfix")}
+    ctx.excuse = lambda mechanism, observed, note: excusable(observed)
     with Reach(funcs) as reach, Probe() as probe:
         mon = RejectionMonitor(ctx, fl)
         mon.install(probe)
+        shared_importer = fl.FllImporter()
         per_engine = 25
         for i, rnd in ctx.cases("rules", max(1, nrule // per_engine)):
             spec = E.gen_engine(rnd, activations=("General",), d=3, max_rules=3)
             engine = E.build(fl, spec)
             names = [v["name"] for v in spec["inputs"] + spec["outputs"]] + [t["name"] for v in spec["inputs"] + spec["outputs"] for t in v["terms"]]
+            envname = ENVIRONMENTS[(i // 3) % len(ENVIRONMENTS)] if i % 3 == 1 else None
             for k in range(per_engine):
                 base = spaced_rule(rnd, spec)
                 kind, text = M.mutate_rule(rnd, base, names)
-                try:
-                    made = fl.Rule.create(text, engine)
-                    ctx.hit("mutant accepted")
-                    ctx.evaluated()
-                    if not made.is_loaded():
-                        ctx.violation("a rule created for an engine is returned unloaded without an error", {"text": text}, "loaded or an error", "unloaded")
-                except Exception:
-                    ctx.hit("mutant rejected")
+                with hostile(fl, envname, ctx):
+                    try:
+                        made = fl.Rule.create(text, engine)
+                        ctx.hit("mutant accepted")
+                        ctx.evaluated()
+                        if not made.is_loaded():
+                            ctx.violation("a rule created for an engine is returned unloaded without an error", {"text": text}, "loaded or an error", "unloaded")
+                    except Exception:
+                        ctx.hit("mutant rejected")
                 if k % 6 == 0:
                     # the same texts for engines that cannot hold them (no components at all; no output variables): nothing to
                     # load the rule with, so it is refused - never handed back as if all were well
@@ -286,13 +328,47 @@ def run(ctx):
             names = [v["name"] for v in spec["inputs"] + spec["outputs"]]
             for k in range(10):
                 kind, bad = M.mutate_fll(rnd, text, names)
-                try:
-                    fl.FllImporter().from_string(bad)
-                    ctx.hit("document mutant accepted")
-                except Exception:
-                    ctx.hit("document mutant rejected")
+                if k % 4 == 3:
+                    kind, bad = "appended component cut short", text + rnd.choice(["\nInputVariable: leftover\n  enabled: true\n  range 0.000 1.000", "\nOutputVariable: extra\n  this line has no colon", "\nRuleBlock: more\n<<<<<<< HEAD"])
+                importer = shared_importer if k % 2 else fl.FllImporter()
+                with hostile(fl, ENVIRONMENTS[(i // 2) % len(ENVIRONMENTS)] if i % 2 else None, ctx):
+                    try:
+                        importer.from_string(bad)
+                        ctx.hit("document mutant accepted")
+                    except Exception:
+                        ctx.hit("document mutant rejected")
+                    if k % 2:
+                        try:
+                            importer.from_string(text)  # and the valid document with the importer that has just read the mutant
+                        except Exception:
+                            pass
+                        ctx.hit("event:one importer object used for rejected and valid documents")
                 if i < 1 and k < 2:
                     ctx.sample("document mutant", {"edit": kind, "mutant": bad[:800]})
+        # an input variable and an output variable of one name (the measured and the commanded `power`) with terms of their own:
+        # whichever of the two a name in a rule is taken for, an accepted proposition is about a term of that variable
+        for i, rnd in ctx.cases("shared names", ctx.scale(40, 800)):
+            name = rnd.choice(["power", "level", "T"])
+            iv = fl.InputVariable(name, minimum=0.0, maximum=1.0, terms=[fl.Triangle("low", 0.0, 0.25, 0.5), fl.Triangle("high", 0.5, 0.75, 1.0)])
+            other = fl.InputVariable("rate", minimum=0.0, maximum=1.0, terms=[fl.Ramp("up", 0.0, 1.0), fl.Ramp("low", 1.0, 0.0)])
+            ov = fl.OutputVariable(name, minimum=0.0, maximum=1.0, aggregation=fl.Maximum(), defuzzifier=fl.Centroid(20), terms=[fl.Triangle("increase", 0.0, 0.5, 1.0), fl.Triangle("decrease", 0.0, 0.25, 0.5)])
+            engine = fl.Engine("shared", input_variables=[iv, other], output_variables=[ov])
+            texts = [f"if {name} is low then {name} is increase", f"if rate is up and {name} is high then {name} is decrease", f"if {name} is increase then {name} is decrease", f"if rate is low or {name} is not low then {name} is very increase", f"if rate is up then {name} is low", f"if {name} is any then {name} is increase"]
+            for t in texts:
+                for route in ("create", "parse-load", "importer"):
+                    try:
+                        if route == "create":
+                            fl.Rule.create(t, engine)
+                        elif route == "parse-load":
+                            r = fl.Rule()
+                            r.parse(t)
+                            r.load(engine)
+                        else:
+                            fl.FllImporter().rule(f"rule: {t}", engine)
+                        ctx.hit("shared names: rule accepted")
+                    except Exception:
+                        ctx.hit("shared names: rule refused")
+            ctx.hit("workload:input and output variable of one name")
         # directed witnesses of parameterless terms (so that the recorded finding is exercised in every run)
         for i, rnd in ctx.cases("parameterless-terms", 4):
             cls = ["Discrete", "Linear", "Triangle", "Gaussian"][i]
@@ -326,6 +402,7 @@ def run(ctx):
                 ctx.sample("injected", {"class": cls, "valid": base, "broken": bad})
         probe.report(ctx)
         reach.report(ctx)
+    ctx.require("workload:input and output variable of one name", "compare:accepted proposition binds a term of its variable", "compare:used importer vs new importer", "event:one importer object used for rejected and valid documents", *[f"environment:{e}" for e in ENVIRONMENTS])
     ctx.require("hook:Rule.parse", "hook:Rule.load", "hook:Antecedent.load", "hook:Consequent.load", "hook:RuleBlock.load_rules", "hook:FllImporter.from_string", "mutant accepted", "mutant rejected", "document mutant accepted", "document mutant rejected", "accepted rule evaluated", "accepted document exported", "event:reload of a loaded rule", "refused for an engine without components", "refused for an engine without output variables", "event:reload after a term was renamed is refused", "long antecedent refused")
     if ctx.nshards == 1:
         for cls in M.ERROR_CLASSES:
